@@ -12,6 +12,7 @@ import os
 
 from vlib import fakeos, hrun
 from vlib.hrun import TaskSpec
+from conductor.config import ARCHIVE_STAGING as _STAGING
 from vlib.runner import Space, Canary, rewrite
 
 ID = "C11"
@@ -169,7 +170,7 @@ def make(trees=TREES, reduced=False, preset_structure=False):
             extra = [k for k in hrun.tree_digest(B.out, exclude=("version_index.sqlite",)) if ".task." in k.split(os.sep)[-1]
                      and not any(k.endswith("%s.task.%d" % (i[2:].rsplit(":", 1)[1], t)) for i, t, _, _ in sel)]
             g.require(not extra, "restore:unselected-output-restored", "%s; %s" % (extra, D))
-            g.require(not (B.out / "archive-tmp").exists(), "restore:staging-left-behind", D)
+            g.require(not (B.out / _STAGING).exists(), "restore:staging-left-behind", D)
             if len(sel) < len(rows):
                 g.goal("some versions not selected")
             if target and mid_dep_e0 and e1_dep_mid and e1_dep_e0 and target == E1.ident:
